@@ -91,9 +91,9 @@ def main():
         "setup_cmd": "python3 -m py_compile check.py obligations.py && cbmc --version >/dev/null && goto-cc --version >/dev/null && kissat --version >/dev/null",
         "hooks": {
             "guard": "KJN_LBZIP2_VERIF",
-            "enable": "every check compiles /repo/src/*.c from the working tree with goto-cc (and gcc for replays) -DKJN_LBZIP2_VERIF plus the scale defines named per obligation (VERIF_MAX_CODE_LENGTH, VERIF_HUFF_START_WIDTH, VERIF_MAX_BLOCK_SIZE) and harness-defined VERIF_POINT(id,arg)",
+            "enable": "every check compiles /repo/src/*.c from the working tree with goto-cc (and gcc for replays) -DKJN_LBZIP2_VERIF plus the scale defines named per obligation (VERIF_MAX_CODE_LENGTH, VERIF_HUFF_START_WIDTH, VERIF_MAX_BLOCK_SIZE, VERIF_MAX_SELECTORS, VERIF_SLIDE_LENGTH) and harness-defined VERIF_POINT(id,arg)",
             "baseline_off_cmd": "cmake -G Ninja -S /repo -B /repo/_build >/dev/null && cmake --build /repo/_build >/dev/null && ctest --test-dir /repo/_build -j8 --timeout 900",
-            "source_commits": ["1c59d0d", "503ddb6", "1354bf0"],
+            "source_commits": ["1c59d0d", "503ddb6", "1354bf0", "77ee45a", "e73309d"],
             "add_only": True,
         },
         "engines": [{"name": "cbmc", "path": "/verif/check.py", "serves_properties": [c["property_id"] for c in checks],
